@@ -270,12 +270,36 @@ func (f *faultHW) ReadPhysBuf(addr int64, buf []byte) error {
 	if f.fail(fmt.Sprintf("ReadPhysBuf(%#x, %d bytes)", addr, len(buf))) {
 		return errInjected
 	}
+	if f.mode == faultPerturb && len(buf) > 256<<20 {
+		panic(errBudget) // a perturbed length field asks for more than a harness sharing its machine can afford
+	}
 	err := f.base.ReadPhysBuf(addr, buf)
 	if err == nil && f.pert() {
-		f.mangle(buf)
+		f.mangleRead(buf)
 	}
 	return err
 }
+
+// mangleRead perturbs what a memory read returned.  Short reads (up to 64 bytes:
+// scalars such as the FIT pointer or the size field of an ACM header, table
+// headers) keep the top byte of every aligned 32-bit word under the fills that
+// would set it (all ones, complement, PRNG): fiano's fit.NewEntry and the ACPI
+// helpers allocate make([]byte, n) with n taken from such a field -- 16 GiB for a
+// complemented ACM size (counted in dwords), 4 GiB for a table length -- which a
+// harness sharing its machine cannot afford.  24 bits still move a module across
+// 4 GiB, destroy every signature and change every flag in the low three bytes.
+func (f *faultHW) mangleRead(buf []byte) {
+	if len(buf) > 64 || len(buf) < 4 || f.variant < 2 {
+		f.mangle(buf)
+		return
+	}
+	keep := append([]byte{}, buf...)
+	f.mangle(buf)
+	for i := 3; i < len(buf); i += 4 {
+		buf[i] = keep[i]
+	}
+}
+
 func (f *faultHW) WritePhys(addr int64, data hwapi.UintN) error {
 	if f.fail("WritePhys") {
 		return errInjected
@@ -438,6 +462,10 @@ func (e *suiteEnv) execHW(list []*test.Test, silent bool, hw *faultHW) faultRun 
 		defer close(done)
 		defer func() {
 			if x := recover(); x != nil {
+				if err, ok := x.(error); ok && err == errBudget {
+					r.aborted = true
+					return
+				}
 				r.panicked = true
 				r.pmsg = fmt.Sprint(x)
 				r.pstack = string(debug.Stack())
@@ -582,6 +610,85 @@ func (e *suiteEnv) addGraphCase(c *gal.Ctx, kind string, list []*test.Test, sile
 	return c.Add(kind, lit, descr, len(o.trace) >= 2)
 }
 
+// addFaultCase: the same finished run (Test.Run calls, not silent) as a case for the
+// runner-over-hardware model (Model/RunnerFault.v, CFault): every evaluation with
+// its window of hardware calls and the injector's per-call failure flags.
+func (e *suiteEnv) addFaultCase(c *gal.Ctx, kind string, list []*test.Test, r faultRun, mode, k int, descr interface{}) int {
+	if r.n > len(r.failed) {
+		return -1 // more calls than the injector records
+	}
+	g, o := e.graphCase(list, false, r)
+	// graphCase numbers the tests locally in order of discovery; redo the same numbering
+	local := map[int]int{}
+	var visit func(t *test.Test)
+	visit = func(t *test.Test) {
+		gi := e.index[t]
+		if _, ok := local[gi]; ok {
+			return
+		}
+		local[gi] = len(local)
+		for _, d := range test.DepsForVerif(t) {
+			visit(d)
+		}
+	}
+	for _, t := range list {
+		visit(t)
+	}
+	shapes := make([][]string, len(g.Tests))
+	hevs := make([]string, 0, len(r.trace))
+	sw := []int{}
+	nth := map[int]int{}
+	anyFailed := false
+	for _, ev := range r.trace {
+		ws := r.own[ev.id]
+		if nth[ev.id] >= len(ws) {
+			return -1
+		}
+		w := ws[nth[ev.id]]
+		nth[ev.id]++
+		li := local[ev.id]
+		flags := r.failed[w.from:w.to]
+		shapes[li] = append(shapes[li], fmt.Sprintf("(%d%%nat, %s)", w.to-w.from, galOut(ev.out)))
+		hevs = append(hevs, fmt.Sprintf("(mkHev %d%%nat %s %d%%nat %s %s)", li, gal.Bool(ev.asdep), w.from, gal.BoolList(flags), galOut(ev.out)))
+		bad := false
+		for _, f := range flags {
+			bad = bad || f
+		}
+		anyFailed = anyFailed || bad
+		if bad && ev.out == [3]bool{true, false, false} {
+			sw = append(sw, li)
+		}
+	}
+	sh := make([]string, len(shapes))
+	for i, l := range shapes {
+		if len(l) == 0 {
+			l = []string{"(0%nat, (false, false, false))"}
+		}
+		sh[i] = gal.List(l)
+	}
+	a, _, ini := galTests(g.Tests)
+	fin := make([]string, len(o.final))
+	bl := make([]string, len(o.final))
+	for i := range o.final {
+		fin[i] = galResult[o.final[i]]
+		if o.blames[i] < 0 {
+			bl[i] = "None"
+		} else {
+			bl[i] = fmt.Sprintf("(Some %d%%nat)", o.blames[i])
+		}
+	}
+	fm := "FNone"
+	switch mode {
+	case faultFromK:
+		fm = fmt.Sprintf("(FFromK %d%%nat)", k)
+	case faultOnlyK:
+		fm = fmt.Sprintf("(FOnlyK %d%%nat)", k)
+	}
+	lit := fmt.Sprintf("CFault %s %s %s %s %s %s %s %s %s %d%%nat %s", a, gal.List(sh), ini, natList(g.Order), fm,
+		gal.BoolList(o.rets), gal.List(fin), gal.List(bl), gal.List(hevs), r.n, natList(sw))
+	return c.Add(kind, lit, descr, anyFailed || len(o.trace) >= 2)
+}
+
 // runnerOracle applies the runner clauses of the property to a finished run of
 // ONE test on the real suite graph.
 func (e *suiteEnv) runnerOracle(t *test.Test, r faultRun) string {
@@ -672,6 +779,7 @@ func partB(c *gal.Ctx) {
 		idx := -1
 		if withCase {
 			idx = e.addGraphCase(c, "suite_graph_fault", []*test.Test{t}, false, r, d)
+			e.addFaultCase(c, "suite_fault_hw", []*test.Test{t}, r, mode, k, d)
 		}
 		stats["runs_finished"]++
 		stats["result_"+t.Result.String()]++
@@ -791,6 +899,9 @@ func partB(c *gal.Ctx) {
 					continue
 				}
 				idx := e.addGraphCase(c, "suite_graph_whole", s.list, silent, r, d)
+				if !silent {
+					e.addFaultCase(c, "suite_fault_hw_whole", s.list, r, mode, 1, d)
+				}
 				bad := ""
 				total := map[int]int{}
 				for _, ev := range r.trace {
@@ -858,6 +969,16 @@ func partB(c *gal.Ctx) {
 	}
 	c.Rep.Extra["partB_pass_with_every_own_access_failed_but_data_independent"] = irr
 	c.Rep.Extra["partB_dependence_experiments"] = own.deps
+	tol := map[string][]string{}
+	for name, m := range own.tolerated {
+		tol[name] = sortedKeys(m)
+	}
+	c.Rep.Extra["partB_pass_kept_after_failed_own_access_data_independent_and_reviewed"] = tol
+	accDep := map[string]dependence{}
+	for k, v := range own.accDeps {
+		accDep[k] = v
+	}
+	c.Rep.Extra["partB_dependence_experiments_single_access"] = accDep
 	c.Rep.Notes = append(c.Rep.Notes,
 		"Part B is an enumeration on the real checks (fault matrix), not a theorem; fallible accesses = every hwapi method that can return an error plus ReadMSR (failure = empty result); CPUID accessors are not faulted",
 		"Part B environment: GetACPITableSysFS and the IOMMU lookup of go-linux-lowlevel-hw read the host's /sys directly (not through the hardware interface); on this host they fail, which the checks treat as absence")
